@@ -2,16 +2,20 @@
 Props/C14 — YAML loading reproduces the value of every well-formed document.
 Property theorems only; lemmas live in Proof/YamlRoundTrip.lean.
 
-`render_load` (DESIGN §5): `∀ s, admissible s → loadRef (render s) = ok s.trees`, delivered in layers.
-Proved here in full: the byte layer, layer 1 (flow collections + double-quoted scalars), and the
-line-break layer (5) as a theorem about *every* stream, instantiated for layer 1.  Layers 2–4, 6, 7
-(block collections, block scalars, comments, anchors/aliases, multi-document) are `…_partial`:
-each is proved on an explicit finite family of streams exhibiting the layer's constructs (kernel
-evaluation of `loadRef ∘ render`), the universally quantified statement is the `Prop`-valued
-`render_load_full_statement`; for those layers the quantifier is covered by the correspondence check,
-which re-evaluates `loadRef (render s) = ok s.trees` on every generated stream.
+`render_load` (DESIGN §5): `∀ s, admissible s → loadRef (render s) = ok s.trees` — proved here for
+EVERY admissible stream (`render_load`): the byte layer, layer 1 (flow collections + double-quoted
+scalars), layer 2 (block collections, nesting, compact forms, plain / single / double scalars and
+keys, every null / bool / int spelling), layer 3 (literal and folded block scalars, chomping,
+indentation indicator, at any depth and at the root), layer 4 (comment lines, blank lines, trailing
+comments, before / inside / after documents), layer 5 (LF / CRLF / CR), layer 6 (anchors and
+aliases in flow and block context, re-definition, anchored collections and block scalars) and layer 7
+(`---` / `...`, several documents, root node on the marker line).  No layer is left to the
+correspondence check alone; the driver still re-evaluates `loadRef (render s) = ok s.trees` on every
+generated stream (a run-time re-check of the theorem's instance and of `admissible`).
 -/
 import SuccinctlyVerif.Proof.YamlRoundTrip
+import SuccinctlyVerif.Proof.YamlRefBlock
+import SuccinctlyVerif.Proof.YamlRefDocs
 import SuccinctlyVerif.Proof.YamlFamilies
 namespace SV.Props.C14
 open SV SV.YamlRef
@@ -66,41 +70,107 @@ example : admissible (l1Stream exL1 0) = true := by decide +kernel
 example : (l1Stream exL1 0).chars = "{\"k\\\"\\n\": [ -12, ~, TRUE, \"\\xe9\\x09\\U0001f600\\\\\"], \"\":   {}}\n".toList := by
   decide +kernel
 
-/-! ## Layers not yet proved for all streams
+/-! ## Every admissible stream -/
 
-Each theorem below is the layer's statement restricted to an explicit finite family of streams
-(`Proof/YamlFamilies.lean`) that exhibits the layer's constructs; `loadsBack s` says
-`admissible s ∧ loadChars s.chars = ok s.trees` and is evaluated by the Lean kernel.  MISSING in every
-one of them: the quantification over all admissible streams of the layer (`render_load_full_statement`
-restricted to the layer); that quantifier is covered only by the correspondence check, where the
-driver evaluates `loadRef (render s) = ok s.trees` for every generated stream. -/
+/-- `render_load`, for ALL presentations: every admissible stream loads back to its trees.
+`admissible` is the specification's side condition (Spec/YamlRef.lean); the stream may consist of any
+number of documents, each with or without `---` / `...` (a bare document only first), with comment
+and blank lines anywhere `admissible` allows them, any nesting of block and flow collections with any
+indentation steps and compact forms, every scalar style including literal and folded block scalars
+(also as a document's root), trailing comments, anchors on any node that may carry one and aliases to
+anchors in scope (`PNode.scope`), and LF, CRLF or CR line breaks. -/
+theorem render_load (s : PStream) (ha : admissible s = true) : loadRef (render s) = .ok s.trees := by
+  rw [render_load_bytes]; exact loadChars_admissible s ha
 
-/-- Layer 2, partial — proved for ALL inputs of this shape: a bare document whose root is a block
-sequence (`- item` lines at column 0, any number ≥ 1 of entries, any number of spaces after `-`)
-whose items are arbitrary layer-1 nodes (flow collections of any depth, double-quoted strings,
-null/bool spellings, decimal ints).  MISSING for the full layer: block mappings, nested block
-collections at deeper indentation, compact forms (`- - x`, `- k: v`), plain and single-quoted
-scalars and keys, non-decimal int spellings. -/
-theorem render_load_partial_block_sequence (m : Meta) (x : PNode) (r : PItems) (st : Nat)
-    (h : (PItems.cons m x r).flat1 = true) :
-    loadRef (render (seqStream (.cons m x r) st)) = .ok [.seq (PItems.cons m x r).trees] := by
-  rw [render_load_bytes]; exact loadChars_blockSeq m x r st h
+/-- The full statement of DESIGN §5 holds. -/
+theorem render_load_full : render_load_full_statement := render_load
 
-example : (PItems.cons { gap := 1 } exL1 (.cons {} (.int 3 0) .nil)).flat1 = true := by decide
+/-- The same for the proof-side predicates `docsOk2` + anchor scoping (weaker than `admissible`: no
+bound on indentation steps, key lengths or integer ranges, duplicate keys allowed). -/
+theorem render_load_docs (s : PStream) (h : docsOk2 true s.docs = true)
+    (hsc : ∀ d ∈ s.docs, (d.root.scope []).isSome = true) : loadRef (render s) = .ok s.trees := by
+  rw [render_load_bytes]; exact loadChars_docs s h hsc
 
-/-- Layer 2 (block collections with plain / quoted scalars) — finite family only. -/
-theorem render_load_partial_block : familyBlock.all loadsBack = true := by decide +kernel
+/-- Layers 2–4 as a bare single document whose root satisfies `bl2` (kept as the statement the
+non-vacuity examples below refer to). -/
+theorem render_load_block (x : PNode) (g : Nat) (h : x.bl2 .root = true) (hb : bareOk x = true)
+    (hs : (x.scope []).isSome = true) :
+    loadRef (render (bareStream x g)) = .ok [x.tree] :=
+  render_load_docs (bareStream x g) (bareStream_ok x g h hb) (bareStream_scope x g hs)
 
-/-- Layer 3 (literal and folded block scalars, chomping, indentation indicator) — finite family only. -/
-theorem render_load_partial_block_scalars : familyBlockScalar.all loadsBack = true := by decide +kernel
+/-- Layers 2–5: the same under LF, CRLF and CR line breaks. -/
+theorem render_load_block_breaks (x : PNode) (g : Nat) (b : Break) (h : x.bl2 .root = true) (hb : bareOk x = true)
+    (hs : (x.scope []).isSome = true) :
+    loadRef (render { bareStream x g with br := b }) = .ok [x.tree] :=
+  render_load_docs { bareStream x g with br := b } (bareStream_ok x g h hb) (bareStream_scope x g hs)
 
-/-- Layer 4 (comments and blank lines) — finite family only. -/
-theorem render_load_partial_comments : familyComments.all loadsBack = true := by decide +kernel
+/-- Non-vacuity: nested, compact, step 0, all scalar kinds. -/
+def exL2 : PNode :=
+  .map false 0 false (.cons {} "name".toList .plain (.str "a b:c#x".toList .plain)
+    (.cons {} "it's".toList .single (.seq false 0 false (.cons {} (.int 7 2) (.cons {} (.str "- x".toList .single) (.cons {} (.null 4) .nil))))
+    (.cons { gap := 1 } "k\n".toList (.double true false)
+      (.seq false 3 false (.cons {} (.map false 0 true (.cons {} "in".toList .plain (.bool false 1) (.cons {} "e".toList .plain (.seq true 0 false (.cons {} exL1 .nil)) .nil)))
+        (.cons { gap := 2 } (.seq false 0 true (.cons {} (.int (-5) 4) (.cons {} (.str "?deep".toList .plain) .nil))) .nil))) .nil)))
 
-/-- Layer 6 (anchors and aliases) — finite family only. -/
-theorem render_load_partial_anchors : familyAnchors.all loadsBack = true := by decide +kernel
 
-/-- Layer 7 (several documents, `---` / `...`) — finite family only (the second stream uses CRLF). -/
-theorem render_load_partial_multi_document : familyMultiDoc.all loadsBack = true := by decide +kernel
+example : exL2.bl2 .root = true := by decide +kernel
+example : admissible (bareStream exL2 0) = true := by decide +kernel
+
+/-- Non-vacuity for the block scalars of layer 3: keep / strip / clip, explicit indicator,
+deeper-indented and blank lines, a scalar followed by a sibling entry and one ending the document;
+folded scalars with folds, line feeds inside and at the end. -/
+def exL3 : PNode :=
+  .map false 0 false (.cons {} "a".toList .plain (.str "x\n  y\n\nz\n".toList (.literal .clip 2 false))
+    (.cons {} "b".toList .plain (.seq false 2 false
+        (.cons {} (.str " lead\nk: v # no comment".toList (.literal .strip 3 true))
+        (.cons {} (.map false 0 true (.cons {} "c".toList .plain (.str "t\n\n\n".toList (.literal .keep 1 false)) .nil)) .nil)))
+    (.cons {} "d".toList .plain (.str "".toList (.literal .strip 1 true))
+    (.cons {} "e".toList .plain (.str "one two three\nfour\n\nfive six\n\n".toList (.folded .keep 2 false [3, 24]))
+    (.cons {} "f".toList .plain (.seq false 0 false (.cons {} (.str "k: v # x".toList (.folded .strip 4 true [])) (.cons {} (.int 1 0) .nil))) .nil)))))
+
+
+example : exL3.bl2 .root = true := by decide +kernel
+example : admissible (bareStream exL3 0) = true := by decide +kernel
+example : (bareStream exL3 0).chars =
+    "a: |\n  x\n    y\n\n  z\nb:\n  - |3-\n      lead\n     k: v # no comment\n  - c: |+\n     t\n\n\nd: |1-\n\ne: >+\n  one\n  two three\n\n  four\n\n\n  five\n  six\n\nf:\n- >4-\n    k: v # x\n- 1\n".toList := by
+  decide +kernel
+
+/-- Non-vacuity for layer 4: comment and blank lines between entries at several depths, trailing
+comments after scalars, after `key:`, after a block scalar header and after a flow collection. -/
+def exL4 : PNode :=
+  .map false 0 false (.cons { trail := some " t: 1".toList } "a".toList .plain (.int 1 0)
+    (.cons { fill := [.blank, .comment " about b".toList], trail := some " on key line".toList } "b".toList .plain
+      (.seq false 2 false (.cons { fill := [.comment "in".toList] } (.str "x".toList .plain)
+        (.cons { trail := some "e".toList } (.null 4)
+        (.cons { fill := [.blank], trail := some " hdr".toList } (.str "l\n".toList (.literal .clip 2 false)) .nil))))
+    (.cons { fill := [.comment "".toList, .blank], gap := 1, trail := some " [".toList } "c".toList .plain
+      (.seq true 0 false (.cons {} (.int 2 0) .nil)) .nil)))
+
+
+example : exL4.bl2 .root = true := by decide +kernel
+example : admissible (bareStream exL4 0) = true := by decide +kernel
+example : (bareStream exL4 0).chars =
+    "a: 1 # t: 1\n\n# about b\nb: # on key line\n  #in\n  - x\n  - #e\n\n  - | # hdr\n    l\n#\n\nc:  [2] # [\n".toList := by
+  decide +kernel
+
+/-- Non-vacuity for layer 7 and the document-level parts of layers 3 and 4: filler lines before the
+first document, a bare first document with a comment on its root, `...`, a `---` document whose root
+is a block scalar on the marker line, a `---` document with an inline root and a comment, an empty
+document, CRLF line breaks. -/
+def exS7 : PStream :=
+  { docs := [
+      { fill := [.comment " top".toList, .blank], root := exL4, rootMeta := { trail := some " root".toList }, endMarker := true },
+      { fill := [.blank], marker := true, root := .str "lit\n  x\n".toList (.literal .clip 2 false), rootMeta := { trail := some "c".toList } },
+      { marker := true, root := .seq true 0 false (.cons {} (.int 1 0) .nil), rootMeta := { gap := 1, trail := some "".toList }, endMarker := true },
+      { fill := [.comment "".toList], marker := true, root := .null 4 },
+      { marker := true, root := exL3 } ],
+    br := .crlf }
+
+example : admissible exS7 = true := by decide +kernel
+
+/-- Non-vacuity for layer 6: the streams of `familyAnchors` (scalar and collection anchors,
+re-definition of an anchor name, aliases in flow and block context, an anchored block scalar) are
+admissible (and load back: an instance of `render_load`, also evaluated by the kernel). -/
+example : familyAnchors.all loadsBack = true := by decide +kernel
 
 end SV.Props.C14
